@@ -284,6 +284,15 @@ class C07(Spec):
                 keys += opener()
                 keys += [ord(rng.choice("hhhlllj")) for _ in range(rng.randint(0, 5))]
             cases.append(ui_case(w, keys, feeds=feeds))
+        # pages change while loads are in flight: the loaders are held, a page is opened (its loaders start), the user walks the
+        # history, then the loads complete - they must land on the page that started them
+        for _ in range(80 if tier == "quick" else 3000):
+            w = thread_world(rng)
+            keys = [ord(rng.choice("jjk")) for _ in range(rng.randint(0, 3))] + [256]
+            for _ in range(rng.randint(1, 3)):
+                keys += rng.choice([[32], [32, ord("h")], [32, ord("h"), ord("l")], [ord("j"), 32, ord("h")], [32, ord("j"), ord("h")], [32, 32, ord("h"), ord("h")]])
+            keys += [257] + [ord(rng.choice("jjjkhl")) for _ in range(rng.randint(2, 8))]
+            cases.append(ui_case(w, keys, preload=rng.choice((1, 2, 3)), feeds=feeds))
         for _ in range(250 if tier == "quick" else 15000):
             w = thread_world(rng)
             keys = rand_keys(rng, rng.randint(5, 60))
